@@ -13,8 +13,9 @@ import traceback
 
 ROOT = os.path.dirname(os.path.dirname(os.path.abspath(__file__)))
 REPO = os.environ.get('VERIF_REPO', '/repo')
-EVID = os.path.join(ROOT, 'evidence')
-REPL = os.path.join(ROOT, 'replays')
+OUT = os.environ.get('VERIF_OUT', ROOT)      # tools/seed_matrix.sh redirects evidence and replays of mutated runs to a scratch directory
+EVID = os.path.join(OUT, 'evidence')
+REPL = os.path.join(OUT, 'replays')
 KNOWN = os.path.join(ROOT, 'KNOWN_FINDINGS.txt')
 
 OK, FAIL, UNDEC, ERR = 'ok', 'fail', 'undecided', 'error'
@@ -192,7 +193,7 @@ def write_replay(pid, idx, ob, native):
                'note': 'native replay reproduces on the real code' if native and native.get('reproduced')
                else 'no-failing-input-found: obligation refuted by the verifier; see detail for its output'},
               open(path, 'w'), indent=1, default=str)
-    return os.path.relpath(path, ROOT)
+    return os.path.relpath(path, OUT)
 
 
 def do_replay(path):
